@@ -1,9 +1,10 @@
 (* Proofs about NV.Bcf.Lazy, part 5: genotypes, and one whole FORMAT column: the values
    Series::get(header, i) returns for i = 0..n_sample-1 are the column the eager read_values /
-   read_genotype_values decode from the same series, up to the normal form [cell_norm], outside the
-   classes of [fmt_plain]. *)
+   read_genotype_values decode from the same series, up to the normal form [cell_norm], for every kind
+   of series (also GT without values and String arrays since a1ba5e6 / 0b0f2ab).  The condition
+   [fmt_ascii] concerns Character series only and is the eager model's assumption that a Character is
+   one byte. *)
 From Coq Require Import ZArith NArith List Bool Lia ZifyBool ZifyNat ZifyN.
-From NV Require Import Base.Percent.
 From NV Require Import Bcf.Ints Bcf.IntsProofs Bcf.Typed Bcf.Strings Bcf.StringsProofs Bcf.Genotype Bcf.StringMap
   Bcf.StringMapProofs Bcf.Record Bcf.RecordTyped Bcf.NeverPanics Bcf.Lazy Bcf.LazyProofs Bcf.LazySiteProofs
   Bcf.LazyInfoProofs Bcf.LazyFmtProofs.
@@ -112,23 +113,25 @@ Proof.
     rewrite (parse_gt_cell _ _ Hb1 Ep). apply genotype_norm_agree.
 Qed.
 
-(* ---------------------------------------------------------------- the classes of one series *)
+(* ---------------------------------------------------------------- the class of one series *)
 Definition cells_all (P : list N -> bool) (ns k : nat) (pay : list N) : bool :=
   match chunks ns k pay with Some (cells, _) => forallb P cells | None => true end.
 
-Definition fmt_plain (fk : name -> option fkind) (ns : nat) (kv : name * list N) : bool :=
+Definition fmt_ascii (fk : name -> option fkind) (ns : nat) (kv : name * list N) : bool :=
   match read_type (snd kv) with
   | Some (code, len, pay) =>
     let l := znat (S (length pay)) len in
-    if name_eqb (fst kv) GT then negb (len =? 0)                  (* lazy-gt-zero-length *)
+    if name_eqb (fst kv) GT then true
     else match fk (fst kv) with
          | Some (FChar true) => cells_all cell_first_ascii ns l pay
-         | Some (FChar false) => cells_all cell_chars_plain ns l pay
-         | Some (FStr false) => cells_all cell_strs_plain ns l pay
+         | Some (FChar false) => cells_all cell_pieces_first_ascii ns l pay
          | _ => true
          end
   | None => true
   end.
+
+Lemma map_const_seq : forall {A} (c : A) n s, map (fun _ : nat => c) (seq s n) = repeat c n.
+Proof. intros A c. induction n as [|n IH]; intros s; [reflexivity|]. cbn [seq map repeat]. rewrite IH. reflexivity. Qed.
 
 Lemma lz_get_mul : forall size i l pay, lz_get (size * i * l) (size * l) pay = lz_get (i * (size * l)) (size * l) pay.
 Proof. intros size i l pay. f_equal. rewrite (Nat.mul_comm size i). symmetry. apply Nat.mul_assoc. Qed.
@@ -151,25 +154,30 @@ Lemma column_agree : forall v44 fk ns k vb id code len pay ecol,
   byte_list pay ->
   read_type vb = Some (code, len, pay) ->
   eager_column fk ns (k, vb) = ROk ecol ->
-  fmt_plain fk ns (k, vb) = true ->
+  fmt_ascii fk ns (k, vb) = true ->
   exists lcol, lz_column v44 fk ns k (mk_series id code len pay) = ROk lcol /\
                map (cell_norm v44) lcol = map (cell_norm v44) ecol.
 Proof.
   intros v44 fk ns k vb id code len pay ecol Hb Hr He Hp.
-  unfold eager_column in He. cbn [fst snd] in He. unfold fmt_plain in Hp. cbn [fst snd] in Hp. rewrite Hr in Hp. cbv zeta in Hp.
+  unfold eager_column in He. cbn [fst snd] in He. unfold fmt_ascii in Hp. cbn [fst snd] in Hp. rewrite Hr in Hp. cbv zeta in Hp.
   unfold lz_column. destruct (fk k) as [kd|] eqn:Ek; [|discriminate].
   remember (znat (S (length pay)) len) as l eqn:El.
   destruct (name_eqb k GT) eqn:Eg.
   - (* GT *)
     unfold dec_gt_col in He. rewrite Hr in He.
-    destruct (len =? 0) eqn:E0; [discriminate|]. rewrite andb_false_r in He.
-    unfold dec_gt in He. rewrite Hr in He. destruct (code =? 1) eqn:E1; [|discriminate]. rewrite E0 in He.
+    destruct (code =? 1) eqn:E1; [|cbn [andb] in He; unfold dec_gt in He; rewrite Hr, E1 in He; discriminate].
+    destruct (len =? 0) eqn:E0; cbn [andb] in He.
+    { (* a series without values: the missing value for every sample, in both readers *)
+      injection He as Hec. subst ecol. exists (repeat (CG None) ns). split; [|reflexivity].
+      rewrite <- (map_const_seq (CG None) ns 0). apply map_rres_ok_map. intros i _.
+      unfold lz_cell. cbn [mk_series se_pay se_len se_code]. cbv zeta. rewrite E1, E0. reflexivity. }
+    unfold dec_gt in He. rewrite Hr in He. rewrite E1, E0 in He.
     rewrite <- El in He.
     destruct (dec_gt_samples ns l pay) as [gs| |] eqn:Ed; try discriminate. cbn [rbind] in He. injection He as Hec. subst ecol.
     destruct (gt_samples_cells v44 ns l pay gs Hb Ed) as [cells [r [cs [Hc [Hm Hn]]]]].
     exists cs. split; [|exact Hn]. rewrite <- Hm.
     apply (column_by_cells _ _ ns (1 * l)%nat pay cells r Hc).
-    intros i Hi. unfold lz_cell. cbn [mk_series se_pay se_len se_code]. cbv zeta. rewrite <- El. rewrite E1.
+    intros i Hi. unfold lz_cell. cbn [mk_series se_pay se_len se_code]. cbv zeta. rewrite <- El. rewrite E1, E0.
     rewrite lz_get_mul. destruct (lz_get (i * (1 * l)) (1 * l) pay); reflexivity.
   - destruct kd as [sc|sc|sc|sc]; cbn [dec_fmt_kind] in He.
     + (* Integer *)
@@ -240,7 +248,7 @@ Proof.
         assert (width_of_code code = None) as Ew by (replace code with 7 by lia; reflexivity). rewrite Ew, E7.
         rewrite lz_get_mul. reflexivity.
       * unfold dec_fmt_char_arrays in He. rewrite rbind_assoc in He. destruct (Hcells _ He) as [cells [r [E7 [Ez [Hc [Hv Hbody]]]]]].
-        pose proof (cells_all_ok cell_chars_plain _ _ _ _ _ Hc) as Hall. replace (1 * l)%nat with l in Hall by lia. specialize (Hall Hp).
+        pose proof (cells_all_ok cell_pieces_first_ascii _ _ _ _ _ Hc) as Hall. replace (1 * l)%nat with l in Hall by lia. specialize (Hall Hp).
         match type of Hbody with rbind ?m _ = _ => destruct m as [l0| |] eqn:Hb0; try discriminate Hbody end. cbn [rbind] in Hbody. injection Hbody as Hec. subst ecol.
         exists (map CCV l0). split; [|reflexivity].
         rewrite <- (fmt_char_arrays_cells cells l0 Hb0 Hv Hall).
@@ -271,9 +279,8 @@ Proof.
         rewrite lz_get_mul. reflexivity.
       * unfold dec_fmt_str_arrays in He. rewrite rbind_assoc in He. destruct (Hcells _ He) as [cells [r [E7 [Ez [Hc [Hv Hbody]]]]]].
         cbn [rbind] in Hbody. injection Hbody as Hec. subst ecol.
-        pose proof (cells_all_ok cell_strs_plain _ _ _ _ _ Hc) as Hall. replace (1 * l)%nat with l in Hall by lia. specialize (Hall Hp).
-        destruct (fmt_str_arrays_cells v44 cells Hv Hall) as [cs [Hm Hn]].
-        exists cs. split; [|exact Hn]. rewrite <- Hm.
+        exists (map CSV (map cell_strs (map until_nul cells))). split; [|reflexivity].
+        rewrite <- (fmt_str_arrays_cells cells Hv).
         apply (column_by_cells _ _ ns (1 * l)%nat pay cells r Hc).
         intros i Hi. unfold lz_cell. cbn [mk_series se_pay se_len se_code]. cbv zeta. rewrite <- El. rewrite Ez.
         assert (width_of_code code = None) as Ew by (replace code with 7 by lia; reflexivity). rewrite Ew, E7.
